@@ -37,6 +37,13 @@ type oracle struct {
 	// closer is used to stop watermarks.
 	closer *utils.Closer
 
+	// untrackedReads counts active transactions whose read timestamp was already at or
+	// below readMark.DoneUntil() when they began (first transactions of an empty or
+	// freshly opened DB, or a transaction reusing the read timestamp of a finished one).
+	// The watermark cannot hold such a reader back, so conflict history must not be
+	// pruned while one is active.
+	untrackedReads atomic.Int64
+
 	txnStarted   uint64
 	txnCommitted uint64
 	txnConflicts uint64
@@ -129,18 +136,29 @@ func (o *oracle) txnMetricsSnapshot() metrics.TxnMetrics {
 }
 
 func (o *oracle) readTs() uint64 {
+	ts, _ := o.beginRead()
+	return ts
+}
+
+// beginRead hands out a read timestamp and reports whether the read watermark is unable
+// to track it (see oracle.untrackedReads).
+func (o *oracle) beginRead() (uint64, bool) {
 	readTs := o.nextTxnTs.Load() - 1
 	if last := o.txnMark.LastIndex(); last < readTs {
 		readTs = last
 	}
 	o.readMark.Begin(readTs)
+	untracked := readTs <= o.readMark.DoneUntil()
+	if untracked {
+		o.untrackedReads.Add(1)
+	}
 
 	// Wait for all txns which have no conflicts, have been assigned a commit
 	// timestamp and are going through the write to value log and LSM tree
 	// process. Not waiting here could mean that some txns which have been
 	// committed would not be read.
 	utils.Check(o.txnMark.WaitForMark(context.Background(), readTs))
-	return readTs
+	return readTs, untracked
 }
 
 // hasConflict must be called while having a lock.
@@ -217,6 +235,10 @@ func (o *oracle) doneRead(txn *Txn) {
 	if !txn.doneRead {
 		txn.doneRead = true
 		o.readMark.Done(txn.readTs)
+		if txn.untrackedRead {
+			txn.untrackedRead = false
+			o.untrackedReads.Add(-1)
+		}
 	}
 }
 
@@ -224,6 +246,10 @@ func (o *oracle) cleanupCommittedTransactions() { // Must be called under o.Lock
 	if !o.detectConflicts {
 		// When detectConflicts is set to false, we do not store any
 		// committedTxns and so there's nothing to clean up.
+		return
+	}
+	if o.untrackedReads.Load() > 0 {
+		// An active reader is invisible to readMark; keep the history it may conflict with.
 		return
 	}
 	// Same logic as discardAtOrBelow but unlocked
@@ -279,6 +305,8 @@ type Txn struct {
 	returned     bool
 	doneRead     bool
 	update       bool // update is used to conditionally keep track of reads.
+	// untrackedRead is set when readTs could not be registered with the read watermark.
+	untrackedRead bool
 }
 
 type pendingWritesIterator struct {
@@ -584,6 +612,7 @@ func (txn *Txn) recycle() {
 	txn.size = 0
 	txn.count = 0
 	txn.doneRead = false
+	txn.untrackedRead = false
 	txn.update = false
 	atomic.StoreInt32(&txn.numIterators, 0)
 	txn.clearPendingWrites()
@@ -803,7 +832,7 @@ func (db *DB) newTransaction(update bool) *Txn {
 	}
 	db.orc.trackTxnStart()
 	verifhook.Point("txn.start")
-	txn.readTs = db.orc.readTs()
+	txn.readTs, txn.untrackedRead = db.orc.beginRead()
 	verifhook.Point("txn.begin")
 
 	return txn
